@@ -43,6 +43,10 @@ CHECKS = {
          "every 1-byte substitution and truncation of valid frames, boundary length prefixes, all bodies <=2 bytes, boundary-valued well-typed messages: no panic at either end, nothing stuck, a probe request is still served after every well-formed odd message", "5/C16", "mc"),
  "C18": ("model_checking", "stateless deviation-bounded DFS with distinct caller trace contexts; wire-level trace oracle",
          "request and cancel trace fields on the wire for every schedule incl. cancellation at every point", "5/C18", "mc"),
+ "C19": ("exploration", "exhaustive enumeration of hook nestings (<=3 wrappers, 259 generic instantiations) x behaviour assignments against a reference interpreter",
+         "for every nesting and every assignment of before/after/handler behaviours the invocation log (order, context seen, result seen) and the final Result equal the reference interpreter's", "5/C19", "mc"),
+ "C20": ("exploration", "exhaustive grids over backends x call sequences x clone patterns x first-poll orders x hashers x retry tables; loom (preemption-bounded exhaustive interleavings) on the extracted round-robin cursor module",
+         "round robin balanced at every prefix incl. across clones and concurrent first polls, and under every thread interleaving within the loom bound; consistent hash valid and stable for boundary hashers; retry passes the identical request, attempts 1,2,3.. and the last result", "5/C20", "mc + mc-loom"),
 }
 
 NOT_YET = {}
@@ -77,8 +81,10 @@ def main():
             "add_only": True,
         },
         "engines": [
-            {"name": "mc", "path": "/verif/mc", "serves_properties": [c for c in CHECKS if CHECKS[c][4] == "mc"],
+            {"name": "mc", "path": "/verif/mc", "serves_properties": [c for c in CHECKS if CHECKS[c][4].startswith("mc")],
              "kind_free_text": "stateless model checker: deviation-bounded exhaustive DFS over choice sequences, every transition a call into the real tarpc code under a harness-owned scheduler, clock, transport and fault injector"},
+            {"name": "mc-loom", "path": "/verif/mc-loom", "serves_properties": ["C20"],
+             "kind_free_text": "loom model of the round-robin cursor: build.rs cuts `mod cycle` out of /repo's load_balance.rs and swaps std::sync for loom::sync; exhaustive interleavings within a preemption bound"},
         ],
         "checks": checks,
         "not_applicable": na,
